@@ -519,3 +519,64 @@ Proof.
   apply filter_In in A. destruct A as [A1 A2]. split; [exact A1|]. split; [exact A2|].
   intros x Hx Ha. apply B. apply filter_In. split; assumption.
 Qed.
+
+(* ---- file names of cached revisions ------------------------------------------------------ *)
+Lemma str_length_append a b : String.length (String.append a b) = String.length a + String.length b.
+Proof. induction a as [|c a IH]; simpl; [reflexivity|rewrite IH; reflexivity]. Qed.
+
+Lemma str_append_inj_r : forall a b x, String.append a x = String.append b x -> a = b.
+Proof.
+  induction a as [|c a IH]; destruct b as [|c' b]; simpl; intros x H.
+  - reflexivity.
+  - exfalso. apply (f_equal String.length) in H. simpl in H. rewrite str_length_append in H. lia.
+  - exfalso. apply (f_equal String.length) in H. simpl in H. rewrite str_length_append in H. lia.
+  - inversion H. f_equal. apply IH with x. assumption.
+Qed.
+
+Lemma etag_file_base_inj exts k e e' :
+  etag_file_base (fun x => x) exts k e = etag_file_base (fun x => x) exts k e' -> e = e'.
+Proof. unfold etag_file_base. apply str_append_inj_r. Qed.
+
+Lemma etag_file_name_inj exts d d' k e e' :
+  etag_file_name (fun x => x) exts d k e = etag_file_name (fun x => x) exts d' k e' -> d = d' /\ e = e'.
+Proof.
+  unfold etag_file_name. intros H. rewrite !app_assoc in H. apply app_inj_tail in H. destruct H as [H1 H2].
+  split; [apply app_inv_tail in H1; exact H1|apply etag_file_base_inj in H2; exact H2].
+Qed.
+
+Lemma validate_names_iff l : validate_names l = [] <-> NamesInjective l.
+Proof.
+  unfold validate_names, NamesInjective, tag_if. split.
+  - intros H a b Ha Hb E.
+    destruct (List.forallb _ l) eqn:F; [|discriminate]. rewrite forallb_forall in F.
+    specialize (F a Ha). rewrite forallb_forall in F. specialize (F b Hb).
+    apply orb_true_iff in F. destruct F as [F|F]; [|apply String.eqb_eq; exact F].
+    apply String.eqb_eq in E. rewrite E in F. discriminate.
+  - intros H. assert (F : List.forallb (fun a => List.forallb (fun b => negb (String.eqb (en_base a) (en_base b)) || String.eqb (en_raw a) (en_raw b)) l) l = true).
+    { apply forallb_forall. intros a Ha. apply forallb_forall. intros b Hb.
+      destruct (String.eqb (en_base a) (en_base b)) eqn:E; [|reflexivity]. simpl.
+      apply String.eqb_eq. apply H; [assumption|assumption|apply String.eqb_eq; exact E]. }
+    rewrite F. reflexivity.
+Qed.
+
+(* a cut after n characters identifies etags that differ later *)
+Definition rep_a (n : nat) : string := string_of_list_ascii (repeat "a"%char n).
+Lemma substring_skip : forall n t, String.substring n 1 (String.append (rep_a n) t) = String.substring 0 1 t.
+Proof. induction n as [|k IH]; intros t; simpl; [reflexivity|apply IH]. Qed.
+Lemma substring_take : forall n t, String.substring 0 n (String.append (rep_a n) t) = rep_a n.
+Proof.
+  induction n as [|k IH]; intros t; simpl; [destruct t; reflexivity|].
+  unfold rep_a in *. simpl. rewrite IH. reflexivity.
+Qed.
+Lemma etag_cut_collides exts k n : exists e e',
+  e <> e' /\ etag_file_base (etag_cut n) exts k e = etag_file_base (etag_cut n) exts k e'.
+Proof.
+  exists (String.append (rep_a n) "1"), (String.append (rep_a n) "2"). split.
+  - intros H. apply (f_equal (fun s => String.substring n 1 s)) in H. rewrite !substring_skip in H. discriminate.
+  - unfold etag_file_base, etag_cut. rewrite !substring_take. reflexivity.
+Qed.
+
+Lemma rep_a_length n : String.length (rep_a n) = n.
+Proof. induction n as [|k IH]; [reflexivity|]. unfold rep_a in *. simpl. rewrite IH. reflexivity. Qed.
+Lemma etag_name_unbounded exts k bound : exists e, bound < String.length (etag_file_base (fun x => x) exts k e).
+Proof. exists (rep_a (S bound)). unfold etag_file_base. rewrite str_length_append, rep_a_length. lia. Qed.
